@@ -6,7 +6,8 @@ CLAIM = ("Memory safety above the decoders, by CBMC's own instrumentation (bound
          "moving realloc; the post-processing tail (symlink split, collapse, frees); the reader/basic-reader state machine over arbitrary operation histories "
          "(use-after-free / double free of shared headers and decoders).")
 ASSUMPTIONS = ["raw header / string lengths are small (bounds per harness); length FIELDS are fully symbolic, so arithmetic on large declared lengths is covered",
-               "CLI printing paths: see C18 harnesses; decoders: C09"]
+               "CLI printing paths: see C18 harnesses; decoders: C09",
+               "ext.parents.all.safe: the pointer ORDER test `p >= path` of make_parent_directories is evaluated on a flat address space (signed offsets) - CBMC orders the one-before-the-start pointer the other way round (harness/common/verif_ptr.h); forming that pointer is not a memory access"]
 from C16 import it, rd
 HARNESSES = [it("safety", len0=l, ret=r, timeout=120) for l, r in [(0, 24), (12, 12), (7, 17), (0, 13), (0, 1), (0, 11), (5, 3)]] + [rd(l, b, "safety") for l, b in [(24, 22), (13, 22), (5, 3)]] + ext_all(mode="safety") + [walk(16, mode="safety"), extend(3), extend(6, timeout=1800, tier="thorough"), l23(2, 36, mode="safety"), l23(3, 44, mode="safety"), l1ext(9, mode="safety"),
              l01(40, mode="safety", timeout=600), l01(36, mode="safety", timeout=900, rawend=True), l01(40, mode="safety", timeout=3600, rawend=True, tier="thorough"), tail(2, mode="safety"), rsm(2, 3, mode="safety", timeout=600),
